@@ -670,3 +670,16 @@ def return_value_heading(ctx):
     else:
         ctx.inconclusive.append("vacuity: nothing rendered")
     ctx.sample({"paths": E.paths})
+
+
+
+# ---------------------------------------------------------------------------------------
+# O1c: the literal shown as an initial value is the source literal also when the statement holding it is laid out over several physical
+# lines and read by the real reader (shared harness with C02 O7)
+# ---------------------------------------------------------------------------------------
+@obligation("C18", "O1c.literal-through-the-reader", engine="SX(CV)", timeout=900)
+def literal_through_reader(ctx):
+    """a declaration whose initial value is a symbolic literal in a symbolic layout (one line, after a `;`, continued before or inside the
+    literal, broken in front of the literal's own blanks, with a trailing comment), read by the real reader: the value shown is the source literal"""
+    from fv.props import c02
+    c02.verbatim(ctx)
